@@ -814,6 +814,51 @@ pub fn gen_case(prop: &str, rng: &mut Rng, n: usize, thorough: bool) -> (String,
                 let text = if enc == Enc::U16 { to_units(rng, &t, false) } else { t };
                 return ("ds-keys".into(), Input::Bidi { enc, api: Api::B, dir: pick_dir(rng), text, ds: Some(spec) });
             }
+            if rng.chance(1, 7) {
+                // explicit formatting CLASSES on ordinary characters of every width, and ordinary classes on the real
+                // formatting characters: only the source's classes count, and X5c / the per-unit copies must follow
+                // the width of the character that is there (finding D10)
+                let carriers: [u32; 10] = [0x78, 0x79, 0x7A, 0xE9, 0x5D0, 0x905, 0x20AC, 0x10000, 0x1F600, 0x21];
+                let fmtc = [FSI, FSI, LRI, RLI, PDI, PDI, LRE, RLE, PDF, LRO, RLO, BN];
+                let mut entries: Vec<(u32, BidiClass, Option<(u32, bool)>)> = vec![];
+                let mut alpha: Vec<u32> = vec![];
+                let k = rng.range(2, 5);
+                let mut used: Vec<u32> = vec![];
+                while used.len() < k {
+                    let c = *rng.pick(&carriers);
+                    if used.contains(&c) { continue; }
+                    used.push(c);
+                    entries.push((c, *rng.pick(&fmtc), None));
+                    alpha.push(c);
+                }
+                for &(c, cl) in &[(0x61u32, L), (0x5D1u32, R), (0x627u32, AL), (0x31u32, EN), (0x20u32, WS), (0x300u32, NSM)] {
+                    entries.push((c, cl, None));
+                    alpha.push(c);
+                }
+                if rng.chance(1, 2) {
+                    // a real formatting character demoted to an ordinary class
+                    let real = *rng.pick(&[FSI_C, LRI_C, RLI_C, PDI_C, LRE_C, PDF_C]);
+                    entries.push((real, *rng.pick(&[L, R, ON, EN]), None));
+                    alpha.push(real);
+                }
+                if rng.chance(1, 3) { alpha.push(*rng.pick(&[FSI_C, PDI_C, 0xAu32])); }
+                let spec = DsSpec { entries, dflt: *rng.pick(&[L, ON, R]) };
+                let n = rng.range(2, 14);
+                let t: Vec<u32> = (0..n).map(|_| *rng.pick(&alpha)).collect();
+                let enc = if rng.chance(1, 2) { Enc::U8 } else { Enc::U16 };
+                let api = if rng.chance(2, 3) { Api::B } else { Api::P };
+                let dir = pick_dir(rng);
+                let text = if enc == Enc::U16 { to_units(rng, &t, false) } else { t };
+                if rng.chance(1, 4) {
+                    if let Some((para, a, b)) = pick_line(rng, enc, api, dir, &text, &Some(spec.clone())) {
+                        return ("ds-fmt".into(), Input::Line { enc, api, dir, text, ds: Some(spec), para, a, b });
+                    }
+                }
+                if rng.chance(1, 5) {
+                    return ("ds-fmt".into(), Input::BaseDir { enc, text, ds: Some(spec) });
+                }
+                return ("ds-fmt".into(), Input::Bidi { enc, api, dir, text, ds: Some(spec) });
+            }
             if rng.chance(1, 6) {
                 // brackets whose CLASS is not ON (a data source may say so): W1-W7 can resolve them to ON, after
                 // which they pair; retained BN units next to them are then rewritten by the weak stage, which the
